@@ -265,9 +265,9 @@ var checks = map[string]*check{
 	"C02": {
 		id: "C02", models: []model{mcRound}, trace: "Trace_Core", batch: 4,
 		gen: func(g *gen.G, thor bool) []gen.Program {
-			return append(gen.Round(g, n(thor, 1500, 40000)), gen.Ctx(g, n(thor, 8, 100), 150)...)
+			return append(append(gen.Round(g, n(thor, 1500, 40000)), gen.Ctx(g, n(thor, 8, 100), 150)...), gen.FMA(g, n(thor, 400, 8000))...)
 		},
-		rule:        "context sessions (the rounding operations reached through package context, operands that are inexact results of earlier calls); same programs as C01 with a different seed stream; the accuracy field is its own mismatch class (C02/acc) so that a C02 alarm is never a side effect of a value error",
+		rule:        "FMA calls of C03's driver (FMA is in C02's list: exact sums with a delicate tail after the precision, cancellation, pass-through addends); context sessions (the rounding operations reached through package context, operands that are inexact results of earlier calls); same programs as C01 with a different seed stream; the accuracy field is its own mismatch class (C02/acc) so that a C02 alarm is never a side effect of a value error",
 		assumptions: commonAssumptions, req: roundReq,
 	},
 }
